@@ -956,6 +956,9 @@ def translate(ll_text, roots, stubs=(), allow_aborts=(), ub=False, src_name='<ir
     for k in list(defs): emit_def(k)
     for nm, tt in E.anon_defs: emit_def('struct ' + nm)
     H.extend(lines)
+    # stable aliases for the library's main classes (harnesses build their state objects directly)
+    for tn, alias in (('class.ST::string', 'vp_string_t'), ('class.ST::string_stream', 'vp_sstream_t'), ('struct.ST::format_spec', 'vp_format_spec_t')):
+        if tn in m.types and not isinstance(m.types[tn], OpaqueT): H.append('typedef struct %s %s;' % (cname(tn), alias))
     # root prototypes (pointer parameters are void* so that harnesses and the native build agree) + parameter type aliases
     for n in m.order:
         if n in seen and n in E.roots:
